@@ -377,6 +377,8 @@ func initTopicP2P(t *Topic, sreg *ClientComMessage) error {
 				users[u2].Access.Anon,
 				users[u2].Access.Auth,
 				types.ModeCP2P)
+			// Ensure sanity: user2's default access may include permissions not valid for P2P topics.
+			userData.modeGiven &= types.ModeCP2P
 
 			// By default assign the same mode that user1 gave to user2 (could be changed below)
 			userData.modeWant = sub2.ModeGiven
